@@ -45,7 +45,11 @@ func Balloon.AddBulk
   ensures C05/version-advances: b.version == old(b.version) + uint64(len(eventBulkDigest))
   ensures C05/one-snapshot-per-event: isnil(result_2) ==> len(result_0) == len(eventBulkDigest)
   ensures C05/consecutive-versions: isnil(result_2) ==> forall k int :: 0 <= k && k < len(eventBulkDigest) ==> result_0[k] != nil && result_0[k].Version == old(b.version) + uint64(k) && result_0[k].EventDigest == eventBulkDigest[k]
+  // "in request order": the k-th version goes to the digest that was k-th WHEN THE CALL WAS MADE
+  // (a bulk that is rearranged in place keeps the clause above true and breaks this one)
+  ensures C05/versions-in-request-order: isnil(result_2) ==> forall k int :: 0 <= k && k < len(eventBulkDigest) ==> result_0[k].EventDigest == old(eventBulkDigest[k])
   loop 1 modifies nothing
+  loop 1 invariant forall k int :: 0 <= k && k < len(eventBulkDigest) ==> eventBulkDigest[k] == old(eventBulkDigest[k])
   loop 1 invariant len(snapshotBulk) == rangeindex + 1 && rangeindex < len(eventBulkDigest) && len(historyDigests) == len(eventBulkDigest)
   loop 1 invariant forall k int :: 0 <= k && k < len(snapshotBulk) ==> snapshotBulk[k] != nil && snapshotBulk[k].Version == initialVersion + uint64(k) && snapshotBulk[k].EventDigest == eventBulkDigest[k]
 
